@@ -571,4 +571,79 @@ theorem strDecimal64_eq_decimalText (d : Int) (p : Nat) (hd : isInt64 d = true) 
       simp only [h2, if_false, fmt_quot_frac]
       simp
 
+/-- `decimalText` has exactly `p` fraction digits, and its digits (without sign and dot) are the
+    digits of `|d|`. -/
+theorem decimalText_digits (d : Int) (p : Nat) (hp : 0 < p) :
+    ∃ ip fp : List Char,
+      decimalText d p = (if d < 0 then ['-'] else []) ++ ip ++ '.' :: fp ∧
+      fp.length = p ∧ ip ≠ [] ∧ (ip ++ fp).all Char.isDigit = true ∧
+      Nat.ofDigitChars 10 (ip ++ fp) 0 = d.natAbs := by
+  have hp0 : ¬(p = 0) := by omega
+  have hDpos : 0 < 10 ^ p := Nat.pow_pos (by decide)
+  have hflen : (Nat.toDigits 10 (d.natAbs % 10 ^ p)).length ≤ p := by
+    rw [Nat.length_toDigits_le_iff (by decide) hp]; exact Nat.mod_lt _ hDpos
+  refine ⟨Nat.toDigits 10 (d.natAbs / 10 ^ p),
+    List.replicate (p - (Nat.toDigits 10 (d.natAbs % 10 ^ p)).length) '0' ++ Nat.toDigits 10 (d.natAbs % 10 ^ p),
+    ?_, ?_, Nat.toDigits_ne_nil, ?_, ?_⟩
+  · simp [decimalText, hp0]
+  · simp only [List.length_append, List.length_replicate]; omega
+  · have h1 := toDigits_all_digit (d.natAbs / 10 ^ p)
+    have h2 := toDigits_all_digit (d.natAbs % 10 ^ p)
+    simp only [List.all_append, h1, h2, Bool.and_true, Bool.true_and, List.all_replicate]
+    simp [Char.isDigit]
+  · rw [Nat.ofDigitChars_append, Nat.ofDigitChars_append, Nat.ofDigitChars_ten_toDigits,
+      Nat.ofDigitChars_replicate_zero, Nat.ofDigitChars_eq_ofDigitChars_zero, Nat.ofDigitChars_ten_toDigits]
+    have hlen : (Nat.toDigits 10 (d.natAbs % 10 ^ p)).length + (p - (Nat.toDigits 10 (d.natAbs % 10 ^ p)).length) = p := by
+      omega
+    rw [← Nat.mul_assoc, ← Nat.pow_add, hlen]
+    exact Nat.div_add_mod _ _
+
+/-! ### base64 -/
+
+theorem b64Val_b64Char : ∀ n : Fin 64, b64Val (b64Char n.val) = some n.val := by decide
+
+theorem b64Val_b64Char' (n : Nat) (h : n < 64) : b64Val (b64Char n) = some n :=
+  b64Val_b64Char ⟨n, h⟩
+
+theorem b64Char_ne_pad : ∀ n : Fin 64, b64Char n.val ≠ 61 := by decide
+
+theorem b64Char_ne_pad' (n : Nat) (h : n < 64) : b64Char n ≠ 61 := b64Char_ne_pad ⟨n, h⟩
+
+/-- decoding the standard base64 text of a byte string gives the byte string back. -/
+theorem unbase64_base64 (bs : Bytes) : unbase64 (base64 bs) = some bs := by
+  induction bs using base64.induct with
+  | case1 => simp [base64, unbase64]
+  | case2 a =>
+    have ha := a.toNat_lt
+    have h0 := b64Val_b64Char' (a.toNat / 4) (by omega)
+    have h1 := b64Val_b64Char' (a.toNat % 4 * 16) (by omega)
+    simp only [base64, unbase64, h0, h1]
+    simp
+    apply UInt8.toNat_inj.mp; simp; omega
+  | case3 a b =>
+    have ha := a.toNat_lt
+    have hb := b.toNat_lt
+    have h0 := b64Val_b64Char' (a.toNat / 4) (by omega)
+    have h1 := b64Val_b64Char' (a.toNat % 4 * 16 + b.toNat / 16) (by omega)
+    have h2 := b64Val_b64Char' (b.toNat % 16 * 4) (by omega)
+    have hne := b64Char_ne_pad' (b.toNat % 16 * 4) (by omega)
+    simp only [base64]
+    rw [unbase64.eq_def]
+    simp [h0, h1, h2]
+    constructor <;> (apply UInt8.toNat_inj.mp; simp; omega)
+  | case4 a b c rest ih =>
+    have ha := a.toNat_lt
+    have hb := b.toNat_lt
+    have hc := c.toNat_lt
+    have h0 := b64Val_b64Char' (a.toNat / 4) (by omega)
+    have h1 := b64Val_b64Char' (a.toNat % 4 * 16 + b.toNat / 16) (by omega)
+    have h2 := b64Val_b64Char' (b.toNat % 16 * 4 + c.toNat / 64) (by omega)
+    have h3 := b64Val_b64Char' (c.toNat % 64) (by omega)
+    have hne2 := b64Char_ne_pad' (b.toNat % 16 * 4 + c.toNat / 64) (by omega)
+    have hne3 := b64Char_ne_pad' (c.toNat % 64) (by omega)
+    simp only [base64]
+    rw [unbase64.eq_def]
+    simp [hne2, hne3, h0, h1, h2, h3, ih]
+    refine ⟨?_, ?_, ?_⟩ <;> (apply UInt8.toNat_inj.mp; simp; omega)
+
 end OnosVerif.Value
